@@ -269,6 +269,20 @@ def assigned_names(stmts):
     return out
 
 
+def _is_boolean_expr(v):
+    if isinstance(v, ast.Compare):
+        return True
+    if isinstance(v, ast.Constant):
+        return isinstance(v.value, bool)
+    if isinstance(v, ast.UnaryOp) and isinstance(v.op, ast.Not):
+        return True
+    if isinstance(v, ast.BoolOp):
+        return all(_is_boolean_expr(x) for x in v.values)
+    if isinstance(v, ast.Call) and isinstance(v.func, ast.Name) and v.func.id in ('bool', 'isinstance', 'any', 'all', 'callable', 'hasattr'):
+        return True
+    return False
+
+
 def names_in(expr):
     return {n.id for n in ast.walk(expr) if isinstance(n, ast.Name)}
 
@@ -452,6 +466,7 @@ class Reach:
                 self.unbind_all(env, assigned_names([st]))
             elif isinstance(st, ast.If):
                 t = to_formula(st.test, env)
+                pre_if_env = dict(env)
                 e1, e2 = dict(env), dict(env)
                 before = set(self.defined)
                 c1 = self.walk(st.body, AND(cond, t), e1)
@@ -474,6 +489,19 @@ class Reach:
                             ok = False
                         if ok:
                             env[k] = v
+                # flag idiom: a boolean-valued name bound differently in the two (live) arms becomes
+                # `(test and v1) or (not test and v2)` -- `take = A; if c: take = B` reads as (c and B) or (not c and A)
+                if len(live) == 2 and c1 is not False and c2 is not False and self.use_env:
+                    test_ast = subst(st.test, pre_if_env)
+                    for k in set(e1) & set(e2):
+                        if k in env or k in self.mutated:
+                            continue
+                        v1, v2 = e1[k], e2[k]
+                        if _is_boolean_expr(v1) and _is_boolean_expr(v2) and k not in names_in(test_ast):
+                            merged = ast.BoolOp(op=ast.Or(), values=[
+                                ast.BoolOp(op=ast.And(), values=[clone(test_ast), clone(v1)]),
+                                ast.BoolOp(op=ast.And(), values=[ast.UnaryOp(op=ast.Not(), operand=clone(test_ast)), clone(v2)])])
+                            env[k] = ast.fix_missing_locations(merged)
                 if repr(c1) == repr(AND(cond, t)) and repr(c2) == repr(AND(cond, NOT(t))):
                     pass  # both arms fall through: the condition is unchanged
                 else:
